@@ -25,7 +25,7 @@ type enumValueLoader struct {
 	// Will be used for creating enum from one of rule.
 	rules map[string]jschemaLib.Rule
 
-	// lastIdx index of last added enum value.
+	// lastIdx index of last added enum value, -1 inside a list before its first value.
 	lastIdx int
 
 	// inProgress true - if loading in progress, false - if loading finisher.
@@ -57,6 +57,7 @@ func (l *enumValueLoader) Load(lex lexeme.LexEvent) bool {
 func (l *enumValueLoader) begin(lex lexeme.LexEvent) {
 	switch lex.Type() {
 	case lexeme.ArrayBegin:
+		l.lastIdx = -1
 		l.stateFunc = l.arrayItemBeginOrArrayEnd
 	case lexeme.MixedValueBegin:
 		l.stateFunc = l.ruleNameBegin
@@ -95,7 +96,10 @@ func (l *enumValueLoader) commentEnd(lex lexeme.LexEvent) {
 		panic(errors.ErrLoader)
 	}
 
-	l.enumConstraint.SetComment(l.lastIdx, lex.Value().String())
+	if l.lastIdx >= 0 {
+		// A comment before the first value has no value to belong to.
+		l.enumConstraint.SetComment(l.lastIdx, lex.Value().String())
+	}
 	l.stateFunc = l.annotationEnd
 }
 
